@@ -171,3 +171,21 @@ def c10_empty_file(case, rr):
     obs = rr.get("observed") or {}
     v = obs.get("violations") or []
     return obs.get("doc") == "" and obs.get("after_fix") == "\n" and all(x["kind"] == "changed-without-fixable-failure" for x in v)
+
+
+@matcher
+def violation_kinds(case, rr, allowed=None, scenario=None, mode=None, err_contains=None):
+    """every violation of the replayed case is of an allowed kind (and the case has the
+    stated scenario / mode)"""
+    obs = rr.get("observed") or {}
+    v = obs.get("violations") or []
+    if not v:
+        return False
+    p = case.get("params", {})
+    if scenario and p.get("scenario") not in scenario:
+        return False
+    if mode and p.get("mode", "scan") != mode:
+        return False
+    if err_contains and not any(err_contains in e for e in obs.get("err") or [] if isinstance(e, str)):
+        return False
+    return all(x["kind"] in allowed for x in v)
